@@ -374,7 +374,7 @@ Lemma isupport_tokens_keeps k : forall toks opts,
 Proof.
   induction toks as [|t r IH]; intros opts H; cbn [isupport_tokens]; [exact H|].
   destruct r as [|t' r']; [exact H|]. apply IH.
-  destruct (index_byte 61 t) as [j|]; [destruct (Nat.ltb j 1 || Nat.eqb (j + 1) (length t))|];
+  destruct (index_byte 61 t) as [j|]; [match goal with |- context [if ?b then _ else _] => destruct b end|];
     rewrite alookup_aset; match goal with |- context [streqb ?a ?b] => destruct (streqb a b) end;
     try discriminate; exact H.
 Qed.
